@@ -12,6 +12,16 @@
 //! it whenever it likes, which is the signal arriving, and the wait ends with EINTR unless a
 //! completion is there by then or the call had submitted something). The poller segment that made
 //! the failing call, resp. the 997 entry, is the event `PI` of the model instead of `P`.
+//!
+//! In a third of the cases whose submission queue is full at the start (prefill = capacity) 1..3
+//! further futures are polled once before the race: they find the queue full and park their waker
+//! on the ring's blocked-futures list (`Submissions::wait_for_submission`; checked with the public
+//! behaviour: `Pending`, nothing queued, not woken). Their wakers only count; the futures are kept
+//! alive to the end and never polled again. `Shared::wake_blocked_futures` (after every successful
+//! enter, at the end of every poll) then has something to do as soon as a slot is free: it takes
+//! the list, wakes, takes the lock a second time (scheduling point LOCK) to put the rest back. The
+//! model gets the number parked (`wk_parked`) and must replay the extra scheduling points; the
+//! number still parked at the end is part of the observation.
 
 use std::fmt::Write as _;
 use std::sync::atomic::{AtomicBool, Ordering};
@@ -69,6 +79,9 @@ pub fn one_case(r: &mut Rng, silent: &Arc<Mutex<Option<String>>>, debug: bool) -
             }
         })
         .collect();
+    // Parked futures: a third of the cases that start with a full queue (drawn last: the cases
+    // without them are what they were before this was added).
+    let n_parked: u32 = if prefill == cap && r.below(3) == 0 { r.range(1, 3) as u32 } else { 0 };
     let cfg = a10::Ring::config().with_submission_queue_size(cap);
     let cfg = match mode {
         1 => cfg.single_issuer(),
@@ -88,6 +101,27 @@ pub fn one_case(r: &mut Rng, silent: &Arc<Mutex<Option<String>>>, debug: bool) -
         let w = crate::util::WakeLog::default().waker(0);
         let _ = crate::util::poll_once(f.as_mut(), &w);
         held.push(f);
+    }
+    // Futures polled while the queue is full: they park on the blocked-futures list.
+    let park_log = crate::util::WakeLog::default();
+    let mut parked = Vec::new();
+    let mut park_failed: Option<String> = None;
+    for j in 0..n_parked {
+        let before = simk::with_fd(ring_fd, |s| s.sq_pending()).unwrap_or(0);
+        let fd = Box::leak(Box::new(std::mem::ManuallyDrop::new(unsafe { a10::AsyncFd::from_raw_fd(2_000_000 + j as i32, sq.clone()) })));
+        let mut f: std::pin::Pin<Box<dyn std::future::Future<Output = std::io::Result<usize>> + Send>> = Box::pin(fd.write(DATA));
+        let w = park_log.waker(100 + j as u64);
+        let pending = crate::util::poll_once(f.as_mut(), &w).is_pending();
+        let after = simk::with_fd(ring_fd, |s| s.sq_pending()).unwrap_or(0);
+        if !pending || after != before || before != cap {
+            park_failed.get_or_insert(format!(
+                "setup: future {j} polled while the submission queue was full did not park (pending={pending}, queued before/after={before}/{after}, entries={cap})"
+            ));
+        }
+        parked.push(f);
+    }
+    if !park_log.take().is_empty() {
+        park_failed.get_or_insert("setup: a parked future was woken before any slot was free".into());
     }
     let total_wakes: usize = wakes_each.iter().sum();
     let returned = Arc::new(Mutex::new(0usize));
@@ -167,7 +201,7 @@ pub fn one_case(r: &mut Rng, silent: &Arc<Mutex<Option<String>>>, debug: bool) -
     }
     if debug {
         println!("plan {plan:?} recs {recs:?} intr_at {intr_at:?}");
-        println!("mode {mode} wakers {n_wakers} wakes {:?} polls {polls}", wakes_each);
+        println!("mode {mode} wakers {n_wakers} wakes {:?} polls {polls} cap {cap} prefill {prefill} parked {n_parked}", wakes_each);
         for (t, p) in &out.exec {
             print!("T{t}@{p} ");
         }
@@ -231,6 +265,9 @@ pub fn one_case(r: &mut Rng, silent: &Arc<Mutex<Option<String>>>, debug: bool) -
     if lost {
         oracle = Some("SubmissionQueue::wake was called while a Ring::poll was in progress (or before the next one started) and that poll blocked forever: the wake-up was lost".into());
     }
+    if let Some(what) = park_failed {
+        oracle.get_or_insert(what);
+    }
     if let Some(p) = &out.panicked {
         let msg = silent.lock().unwrap().take().unwrap_or_default();
         oracle.get_or_insert(format!("a thread panicked: {p} {msg}"));
@@ -252,23 +289,34 @@ pub fn one_case(r: &mut Rng, silent: &Arc<Mutex<Option<String>>>, debug: bool) -
     obs.push(polls_left as i128);
     obs.push(cq);
     obs.push(sqp);
+    // Parked futures woken during the race (each waker is on the list once; waking only counts).
+    let parked_woken = park_log.take().len();
+    obs.push(n_parked as i128 - parked_woken as i128);
     drop(sq);
     std::mem::forget(held);
+    std::mem::forget(parked);
     simk::retire(ring_fd);
     let mode_s = ["Default", "SingleIssuer", "KernelThread"][mode as usize];
     let wk: Vec<String> = wakes_each.iter().map(|k| format!("{k}%nat")).collect();
     let coq = format!(
-        "{{| wk_mode := {mode_s}; wk_cap := {cap}%N; wk_prefill := {prefill}%N; wk_polls := {polls}%nat; wk_wakes := [{}]; wk_events := [{events}] |}}",
+        "{{| wk_mode := {mode_s}; wk_cap := {cap}%N; wk_prefill := {prefill}%N; wk_parked := {n_parked}%N; wk_polls := {polls}%nat; wk_wakes := [{}]; wk_events := [{events}] |}}",
         wk.join("; ")
     );
     let plan_s: Vec<String> = plan.iter().map(|p| format!("\"{p:?}\"")).collect();
     let json = format!(
-        "{{\"mode\":\"{mode_s}\",\"sq_entries\":{cap},\"queued_before\":{prefill},\"polls\":{polls},\"wakes_per_waker\":{:?},\"enter_interrupted_per_poll\":[{}],\"schedule\":[{jsched}]}}",
+        "{{\"mode\":\"{mode_s}\",\"sq_entries\":{cap},\"queued_before\":{prefill},\"futures_parked_before\":{n_parked},\"polls\":{polls},\"wakes_per_waker\":{:?},\"enter_interrupted_per_poll\":[{}],\"schedule\":[{jsched}]}}",
         wakes_each,
         plan_s.join(",")
     );
     let preemptions = out.trace.iter().filter(|t| t.2).count();
     let blocked_then_woken = out.exec.iter().any(|e| e.1 == 998);
+    // The second lock of wake_blocked_futures (only taken when it found parked futures): the poller
+    // takes no other lock; a waker's is the LOCK point that follows its TRY_LOCK point.
+    let lock2_poller = out.exec.iter().any(|e| e.0 == 0 && e.1 == 1);
+    let lock2_waker = (1..=n_wakers).any(|t| {
+        let mine: Vec<u32> = out.exec.iter().filter(|e| e.0 == t).map(|e| e.1).collect();
+        mine.windows(2).any(|w| w[0] == 3 && w[1] == 1)
+    });
     let tags = vec![
         format!("mode:{mode_s}"),
         format!("queue_full_at_start:{}", prefill == cap),
@@ -292,6 +340,21 @@ pub fn one_case(r: &mut Rng, silent: &Arc<Mutex<Option<String>>>, debug: bool) -
             if intr_seen.is_empty() { "-".to_string() } else { format!("{mode_s}/owed={}", intr_seen.iter().any(|i| i.1)) }
         ),
         format!("enter_interrupted_count:{}", intr_seen.len()),
+        format!("parked:{n_parked}"),
+        format!("parked_mode:{}", if n_parked == 0 { "-".to_string() } else { format!("{mode_s}/{n_parked}") }),
+        format!("parked_woken:{}", if n_parked == 0 { "-".to_string() } else { format!("{parked_woken}of{n_parked}") }),
+        format!(
+            "parked_second_lock_by:{}",
+            match (lock2_poller, lock2_waker) {
+                _ if n_parked == 0 => "-",
+                (false, false) => "nobody",
+                (true, false) => "poller",
+                (false, true) => "waker",
+                (true, true) => "both",
+            }
+        ),
+        format!("parked_poller_blocked:{}", if n_parked == 0 { "-".to_string() } else { format!("{}", blocked_then_woken || out.stuck) }),
+        format!("parked_enter_interrupted:{}", if n_parked == 0 { "-".to_string() } else { format!("{}", !intr_seen.is_empty()) }),
     ];
     Case { coq, obs, json, oracle, known: None, tags, nontrivial: preemptions > 0 }
 }
